@@ -64,6 +64,10 @@ Variable postcopy : bool.
     header is read once more and a difference also forces the boundary snapshot);
     [recheck = false]: without it.  /repo HEAD is [true true true]. *)
 Variable recheck : bool.
+(** [freshrule = true]: /repo commit 3b58009 (until something has been synced in the
+    current open session, a changed header salt means snapshot);
+    [freshrule = false]: without it. *)
+Variable freshrule : bool.
 
 Definition tx : Type := list (frame data).
 Definition flen (ts : list tx) : nat := length (concat ts).
@@ -102,6 +106,17 @@ Inductive curT :=
 | AtBase             (* the generation was reset exactly when everything was replicated *)
 | Lost.              (* a generation was reset while it held unreplicated transactions *)
 
+(** the in-memory syncState of one open session (zero after Open / in a new
+    process), plus one ghost bit *)
+Record sess := mkSess {
+  s_end : bool;        (* syncedToWALEnd *)
+  s_off : nat;         (* lastSyncedWALOffset as a frame count; 0 = nothing synced in this session *)
+  s_openmark : bool;   (* ghost: the read mark now held was taken by Open over existing level-0 files *)
+  s_snap : option (nat * nat * nat * nat) }.
+                       (* a snapshot in progress (chkMu read-locked): advertised position
+                          (number of level-0 files), walEndOffset as a frame count, and two
+                          ghosts: transactions replicated at that position, generation then *)
+
 Record state := mkSt {
   (* SQLite / file system *)
   base : N -> data;          (* database file when the live generation started *)
@@ -119,11 +134,17 @@ Record state := mkSt {
   cgen : nat;                (* salts in the header of the last level-0 file *)
   cfo : nat;                 (* (WALOffset + WALSize - 32) / frame size of that header *)
   cprev : N;                 (* Commit of that header *)
-  flag : bool;               (* syncState.syncedToWALEnd *)
+  ss : sess;                 (* syncState *)
   pc : pcT;
   (* ghost *)
   cur : curT;
-  acks : list (nat * image data * bool) }.
+  acks : list (nat * image data * bool);
+  snaps : list (nat * image data) }.  (* ghost: (advertised position, content) of every snapshot read *)
+
+Definition flag (s : state) : bool := s_end (ss s).
+Definition lastoff (s : state) : nat := s_off (ss s).
+Definition openmark (s : state) : bool := s_openmark (ss s).
+Definition snap (s : state) : option (nat * nat * nat * nat) := s_snap (ss s).
 
 Definition committed (s : state) : image data := view data (base s, bsize s) (concat (txs s)).
 (** the database file as litestream reads it *)
@@ -177,14 +198,14 @@ Definition cur_reset (c : curT) (len : nat) : curT :=
 Definition reset_st (s : state) (trunc : bool) : state :=
   mkSt (fst (committed s)) (snd (committed s)) (S (gen s)) [] 0 (fsize s)
        (if trunc then [] else phys s) (ls_mark s) (wlock s)
-       (opened s) (l0 s) (cgen s) (cfo s) (cprev s) (flag s) (pc s)
-       (cur_reset (cur s) (length (txs s))) (acks s).
+       (opened s) (l0 s) (cgen s) (cfo s) (cprev s) (ss s) (pc s)
+       (cur_reset (cur s) (length (txs s))) (acks s) (snaps s).
 
 (** sqlite3WalFrames: the frames go after mxFrame, over whatever was there *)
 Definition append_st (s : state) (t : tx) : state :=
   mkSt (base s) (bsize s) (gen s) (txs s ++ [t]) (backfilled s) (fsize s)
        (overwrite (phys s) (flen (txs s)) (tag (gen s) t)) (ls_mark s) (wlock s)
-       (opened s) (l0 s) (cgen s) (cfo s) (cprev s) (flag s) (pc s) (cur s) (acks s).
+       (opened s) (l0 s) (cgen s) (cfo s) (cprev s) (ss s) (pc s) (cur s) (acks s) (snaps s).
 
 (** a commit by anybody; [restart] is SQLite's choice, constrained by
     [reset_enabled] and mxFrame > 0 *)
@@ -196,27 +217,34 @@ Definition do_commit (s : state) (t : tx) (restart : bool) : option state :=
 
 Definition set_pc (s : state) (p : pcT) : state :=
   mkSt (base s) (bsize s) (gen s) (txs s) (backfilled s) (fsize s) (phys s) (ls_mark s) (wlock s)
-       (opened s) (l0 s) (cgen s) (cfo s) (cprev s) (flag s) p (cur s) (acks s).
+       (opened s) (l0 s) (cgen s) (cfo s) (cprev s) (ss s) p (cur s) (acks s) (snaps s).
 Definition set_mark (s : state) (m : option nat) : state :=
   mkSt (base s) (bsize s) (gen s) (txs s) (backfilled s) (fsize s) (phys s) m (wlock s)
-       (opened s) (l0 s) (cgen s) (cfo s) (cprev s) (flag s) (pc s) (cur s) (acks s).
+       (opened s) (l0 s) (cgen s) (cfo s) (cprev s) (ss s) (pc s) (cur s) (acks s) (snaps s).
 Definition set_wlock (s : state) (w : bool) : state :=
   mkSt (base s) (bsize s) (gen s) (txs s) (backfilled s) (fsize s) (phys s) (ls_mark s) w
-       (opened s) (l0 s) (cgen s) (cfo s) (cprev s) (flag s) (pc s) (cur s) (acks s).
+       (opened s) (l0 s) (cgen s) (cfo s) (cprev s) (ss s) (pc s) (cur s) (acks s) (snaps s).
 Definition set_opened (s : state) : state :=
   mkSt (base s) (bsize s) (gen s) (txs s) (backfilled s) (fsize s) (phys s) (ls_mark s) (wlock s)
-       true (l0 s) (cgen s) (cfo s) (cprev s) (flag s) (pc s) (cur s) (acks s).
-Definition set_flag (s : state) (b : bool) : state :=
+       true (l0 s) (cgen s) (cfo s) (cprev s) (ss s) (pc s) (cur s) (acks s) (snaps s).
+Definition set_ss (s : state) (x : sess) : state :=
   mkSt (base s) (bsize s) (gen s) (txs s) (backfilled s) (fsize s) (phys s) (ls_mark s) (wlock s)
-       (opened s) (l0 s) (cgen s) (cfo s) (cprev s) b (pc s) (cur s) (acks s).
+       (opened s) (l0 s) (cgen s) (cfo s) (cprev s) x (pc s) (cur s) (acks s) (snaps s).
+Definition set_flag (s : state) (b : bool) : state := set_ss s (mkSess b (lastoff s) (openmark s) (snap s)).
+Definition set_openmark (s : state) (b : bool) : state := set_ss s (mkSess (flag s) (lastoff s) b (snap s)).
+Definition set_snap (s : state) (x : option (nat * nat * nat * nat)) : state :=
+  set_ss s (mkSess (flag s) (lastoff s) (openmark s) x).
+Definition set_closed (s : state) : state :=
+  mkSt (base s) (bsize s) (gen s) (txs s) (backfilled s) (fsize s) (phys s) None false
+       false (l0 s) (cgen s) (cfo s) (cprev s) (mkSess false 0 false None) Idle (cur s) (acks s) (snaps s).
 (** walCheckpoint: pages of frames up to [j] copied into the database file *)
 Definition set_backfill (s : state) (j : nat) (sz : N) : state :=
   mkSt (base s) (bsize s) (gen s) (txs s) j sz (phys s) (ls_mark s) (wlock s)
-       (opened s) (l0 s) (cgen s) (cfo s) (cprev s) (flag s) (pc s) (cur s) (acks s).
+       (opened s) (l0 s) (cgen s) (cfo s) (cprev s) (ss s) (pc s) (cur s) (acks s) (snaps s).
 Definition add_ack (s : state) : state :=
   mkSt (base s) (bsize s) (gen s) (txs s) (backfilled s) (fsize s) (phys s) (ls_mark s) (wlock s)
-       (opened s) (l0 s) (cgen s) (cfo s) (cprev s) (flag s) (pc s) (cur s)
-       ((length (l0 s), committed s, match cur s with Lost => false | _ => true end) :: acks s).
+       (opened s) (l0 s) (cgen s) (cfo s) (cprev s) (ss s) (pc s) (cur s)
+       ((length (l0 s), committed s, match cur s with Lost => false | _ => true end) :: acks s) (snaps s).
 
 (** walTryBeginRead: mark 0 when the WAL is completely backfilled, else mxFrame *)
 Definition acquire (s : state) : option nat :=
@@ -273,7 +301,9 @@ Definition verify (s : state) : vans :=
     | Some g =>
         if negb (g =? cgen s) then VSnap                     (* lastPageMatch: salts differ *)
         else if negb saltMatch then
-          (if detect_full (phys s) (gen s) (cgen s) then VSnap else VIncrHdr false)
+          (* 3b58009: nothing synced yet in this session: "wal restarted while not replicating" *)
+          (if freshrule && (lastoff s =? 0) then VSnap
+           else if detect_full (phys s) (gen s) (cgen s) then VSnap else VIncrHdr false)
         else VIncrAt
     end
   end.
@@ -294,8 +324,10 @@ Fixpoint idx (ts : list tx) (n : nat) : option nat :=
 Definition write_file (s : state) (x : ltx data) (newcfo : nat) (c : curT) : state :=
   mkSt (base s) (bsize s) (gen s) (txs s) (backfilled s) (fsize s) (phys s) (ls_mark s) (wlock s)
        (opened s) (l0 s ++ [x]) (gen s) newcfo (x_commit data x)
-       (newcfo =? length (phys s))            (* syncedToWALEnd = (finalOffset = walSize) *)
-       (pc s) c (acks s).
+       (mkSess (newcfo =? length (phys s))   (* syncedToWALEnd = (finalOffset = walSize) *)
+               newcfo                         (* lastSyncedWALOffset = finalOffset *)
+               (openmark s) (snap s))
+       (pc s) c (acks s) (snaps s).
 
 (** writeLTXFromDB over the whole live generation *)
 Definition snapshot_st (s : state) : state :=
@@ -337,6 +369,32 @@ Definition do_sync (s : state) (k : nat) : option state :=
         incr_st s 0 k clear (match cur s with AtBase => AtLive k | _ => Lost end)
     end
   end.
+
+(** * Snapshots *)
+
+(** snapshotWALEndOffset: header when the WAL is missing or (guarded) carries
+    other salts than the last level-0 file; else the cached
+    lastSyncedWALOffset if any, else the end offset recorded in that file *)
+Definition snap_wal_end (s : state) (guard : bool) : nat :=
+  match phys s with
+  | [] => 0
+  | _ :: _ =>
+      if guard && negb (cgen s =? gen s) then 0
+      else if 0 <? lastoff s then lastoff s else cfo s
+  end.
+
+(** pageMap(maxBytes): whole transactions up to the bound; a bound inside a
+    transaction makes the read exceed it (error); a bound beyond the committed
+    frames reads them all *)
+Definition snap_idx (ts : list tx) (we : nat) : option nat :=
+  match idx ts we with
+  | Some c => Some c
+  | None => if flen ts <? we then Some (length ts) else None
+  end.
+
+Definition add_snap (s : state) (x : nat * image data) : state :=
+  mkSt (base s) (bsize s) (gen s) (txs s) (backfilled s) (fsize s) (phys s) (ls_mark s) (wlock s)
+       (opened s) (l0 s) (cgen s) (cfo s) (cprev s) (ss s) (pc s) (cur s) (acks s) (x :: snaps s).
 
 (** * The decisions of checkpointWithExecutor after the PRAGMA *)
 
@@ -385,7 +443,13 @@ Inductive label :=
 | LsBump (t : tx) (restart : bool)
 | LsCmpHdr
 | LsBoundarySnap
-| LsClose.
+| LsClose
+| LsKill
+| LsSnapPos (guard : bool)   (* snapshotPosition under the executor; [guard = false]: snapshotWALEndOffset
+                                before it compared the salts of the last level-0 file with the WAL header *)
+| LsSnapRead                 (* snapshotReader's goroutine: database file + WAL up to walEndOffset *)
+| LsBumpFail.                (* the one error exit modelled: bumpLitestreamSeq fails (SQLITE_BUSY), the
+                                checkpoint call returns, the executor's state is applied as it is *)
 
 Definition step (s : state) (l : label) : option state :=
   match l with
@@ -396,7 +460,9 @@ Definition step (s : state) (l : label) : option state :=
       if reset_enabled s then Some (reset_st s true) else None
   | LsOpen =>
       match opened s, pc s with
-      | false, Idle => Some (set_mark (set_opened s) (acquire s))
+      | false, Idle =>
+          Some (set_openmark (set_mark (set_opened s) (acquire s))
+                             (match l0 s with [] => false | _ :: _ => true end))
       | _, _ => None
       end
   | LsSync k =>
@@ -419,7 +485,12 @@ Definition step (s : state) (l : label) : option state :=
       end
   | LsCkStart m =>
       match pc s, phys s with
-      | Idle, _ :: _ => if opened s then Some (set_pc s (PHdr m (gen s))) else None
+      | Idle, _ :: _ =>
+          (* chkMu.TryLock fails while a snapshot holds the read side: the checkpoint is skipped *)
+          match snap s with
+          | None => if opened s then Some (set_pc s (PHdr m (gen s))) else None
+          | Some _ => None
+          end
       | _, _ => None
       end
   | LsLockWrite =>
@@ -430,10 +501,10 @@ Definition step (s : state) (l : label) : option state :=
       end
   | LsRelease =>
       match pc s with
-      | PSealed hg => Some (set_mark (set_pc s (PReleased Passive hg (cfo s))) None)
+      | PSealed hg => Some (set_openmark (set_mark (set_pc s (PReleased Passive hg (lastoff s))) None) false)
       | PCopied m hg =>
           if mode_eqb m Passive then None
-          else Some (set_mark (set_pc s (PReleased m hg (cfo s))) None)
+          else Some (set_openmark (set_mark (set_pc s (PReleased m hg (lastoff s))) None) false)
       | _ => None
       end
   | LsCkpt j sz =>
@@ -454,7 +525,7 @@ Definition step (s : state) (l : label) : option state :=
       end
   | LsReacquire =>
       match pc s, ls_mark s with
-      | PCkpted _ _ _ _, None => Some (set_mark s (acquire s))
+      | PCkpted _ _ _ _, None => Some (set_openmark (set_mark s (acquire s)) false)
       | _, _ => None
       end
   | LsMid =>
@@ -491,14 +562,64 @@ Definition step (s : state) (l : label) : option state :=
       end
   | LsBoundarySnap =>
       match pc s, phys s with
-      | PBoundLocked, _ :: _ => Some (set_wlock (set_pc (snapshot_st s) Idle) false)
+      | PBoundLocked, _ :: _ =>
+          if opened s then Some (set_wlock (set_pc (snapshot_st s) Idle) false) else None
       | _, _ => None
       end
   | LsClose =>
+      (* the final sync and upload are ordinary steps before it; the read
+         transaction is rolled back and syncState zeroed (acbcc3c) *)
       match pc s with
-      | Idle => if opened s then Some (set_mark (set_pc s Closed) None) else None
+      | Idle => if opened s then Some (set_closed s) else None
       | _ => None
       end
+  | LsKill =>
+      (* the process dies anywhere: every lock it held is gone, the next process starts from the files *)
+      if opened s then Some (set_closed s) else None
+  | LsSnapPos g =>
+      match pc s, l0 s, snap s with
+      | Idle, _ :: _, None =>
+          if opened s then
+            Some (set_snap s (Some (length (l0 s), snap_wal_end s g,
+                                    match cur s with AtLive c => c | _ => 0 end, gen s)))
+          else None
+      | _, _, _ => None
+      end
+  | LsSnapRead =>
+      match snap s, phys s with
+      | Some (p, we, _, _), _ :: _ =>
+          if opened s then
+            match snap_idx (txs s) we with
+            | Some c =>
+                Some (add_snap (set_snap s None)
+                               (p, view data (dbfile s, fsize s) (concat (firstn c (txs s)))))
+            | None => None        (* "snapshot wal read exceeded bound" *)
+            end
+          else None
+      | _, _ => None
+      end
+  | LsBumpFail =>
+      match pc s with
+      | PUnlocked _ _ _ _ _ => Some (set_pc s Idle)
+      | _ => None
+      end
+  end.
+
+(** snapshot_matches_position needs three facts the code does not establish by
+    itself; each is a side condition here and a refuted lemma when dropped:
+    the advertised position lies in the live WAL generation and is not lost
+    ([LsSnapPos]); no WAL restart between capturing the position and reading
+    ([LsSnapRead], first conjunct); the database file has not been backfilled
+    beyond the position ([LsSnapRead], second conjunct - F9). *)
+Definition snap_ok (s : state) (l : label) : bool :=
+  match l with
+  | LsSnapPos _ => match cur s with AtLive _ => true | _ => false end
+  | LsSnapRead =>
+      match snap s with
+      | Some (_, _, sc, sg) => (sg =? gen s) && (backfilled s <=? sc)
+      | None => true
+      end
+  | _ => true
   end.
 
 (** the environment hypotheses attached to a step *)
@@ -516,9 +637,34 @@ Definition label_ok (s : state) (l : label) : Prop :=
     instant is not seen by the re-read, the copy continues from the new header
     on evidence (C).  [window_ok] excludes exactly such a restart; with
     [recheck] (commit bb88a29) it excludes nothing. *)
+Definition idleish (p : pcT) : bool := match p with Idle | PHdr _ _ => true | _ => false end.
+
+(** A session that re-opened over existing level-0 files and took read mark 0 (the
+    WAL was completely backfilled while litestream was closed) is catching up
+    in budgeted chunks: it has synced something ([lastoff > 0], the fresh-session
+    rule no longer applies) but its cursor is not at the end of the live
+    generation, and its mark 0 does not keep a commit from restarting the WAL
+    over the frames it has not copied yet. *)
+Definition catching_up (s : state) : bool :=
+  openmark s && idleish (pc s) && (0 <? lastoff s) && (0 <? length (txs s)) &&
+  negb ((cgen s =? gen s) && (cfo s =? flen (txs s))).
+
+(** A process killed after the copy that follows a FULL/RESTART checkpoint ran
+    over a WAL restarted under frames it had not copied (the F16 window) and
+    before the boundary snapshot that the header re-read then forces: the last
+    level-0 file carries the live salts but the chain misses frames. *)
+Definition kill_ok (s : state) : bool :=
+  match cur s, l0 s with
+  | Lost, _ :: _ => negb (cgen s =? gen s)
+  | _, _ => true
+  end.
+
 Definition window_ok (s : state) (l : label) : bool :=
   match l with
-  | AppCommit _ true | AppTruncate => recheck || negb (post_pending (pc s))
+  | AppCommit _ true | AppTruncate =>
+      (recheck || negb (post_pending (pc s))) && negb (catching_up s)
+  | LsKill => kill_ok s
+  | LsBumpFail => false     (* error exits are outside the C01 / C04 theorems *)
   | _ => true
   end.
 
@@ -540,13 +686,20 @@ Fixpoint steps_window (s : state) (ls : list label) : Prop :=
   | l :: r => window_ok s l = true /\ match step s l with Some s' => steps_window s' r | None => True end
   end.
 
+Fixpoint steps_snap (s : state) (ls : list label) : Prop :=
+  match ls with
+  | [] => True
+  | l :: r => snap_ok s l = true /\ match step s l with Some s' => steps_snap s' r | None => True end
+  end.
+
 (** any database with any WAL, before litestream opens it *)
 Definition init_ok (s : state) : Prop :=
   txs_ok (bsize s) (txs s) /\ base s lock = zero /\
   backfilled s <= length (txs s) /\ flen (txs s) <= length (phys s) /\
   (txs s = [] -> phys s = []) /\
   ls_mark s = None /\ wlock s = false /\ opened s = false /\ l0 s = [] /\
-  pc s = Idle /\ acks s = [] /\ cur s = Lost.
+  pc s = Idle /\ acks s = [] /\ cur s = Lost /\ ss s = mkSess false 0 false None /\
+  cgen s <= gen s /\ snaps s = [].
 
 Definition mode_pt (m : mode) : bool := match m with Passive | Truncate => true | _ => false end.
 (** histories in which litestream issues only the checkpoint modes
